@@ -98,6 +98,9 @@ def design_for(chk, sc, pid, configs=None):
             bad = bad_strings(res)
             msgs = re.findall(r'"([^"]+)"', bad)
             mine = [m for m in msgs if m.startswith(pid + " ")]
+            if pid == "C07":
+                # a stale candidate that can be committed carries a pre-time-sliced out-state: particles jump (C07)
+                mine += ["C07 (via " + m + ")" for m in msgs if m.startswith("C08 ")]
             if "Mirror" in res.violated or "ActiveCellTrue" in res.violated:
                 if pid == "C11":
                     mine.append("C11 %s violated in the design model" % ",".join(res.violated))
